@@ -1,7 +1,7 @@
 (* C13 property theorems.  Nothing but statements closed by `exact`, a pin, and
    Print Assumptions.  The driver parses this file's output. *)
 From ZV.Common Require Import Base.
-From ZV.C13 Require Import Model ProofsLeb ProofsZigzag ProofsSeq.
+From ZV.C13 Require Import Model ModelIO ModelReader ModelRun ProofsLeb ProofsZigzag ProofsSeq ProofsIO.
 Open Scope N_scope.
 
 (* decode (encode v ++ rest) = (v, |encode v|): for every u64 and every trailing bytes *)
